@@ -97,8 +97,36 @@ func ruleResultAppendOnly(c *Ctx, r *Report, rule string) {
 					} else {
 						r.bad(rule, fn+"/alias", "vm.result is copied into another variable (aliasing the result list)", c.pos(p.Pos()))
 					}
-				case *ast.IndexExpr, *ast.SliceExpr:
-					r.bad(rule, key, "vm.result is indexed or sliced: completed blocks may be replaced or the list aliased", c.pos(sel.Pos()))
+				case *ast.IndexExpr:
+					// vm.result[i] read as a value is harmless; stored to, or its address taken, is not
+					written := false
+					var cur ast.Node = p
+					for up := pm[cur]; up != nil; cur, up = up, pm[up] {
+						switch u := up.(type) {
+						case *ast.SelectorExpr, *ast.ParenExpr:
+							continue
+						case *ast.AssignStmt:
+							for _, l := range u.Lhs {
+								if l == cur.(ast.Expr) {
+									written = true
+								}
+							}
+						case *ast.IncDecStmt:
+							written = true
+						case *ast.UnaryExpr:
+							if u.Op == token.AND {
+								written = true
+							}
+						}
+						break
+					}
+					if written {
+						r.bad(rule, key, "an element of vm.result is stored to or has its address taken: completed blocks may be replaced", c.pos(sel.Pos()))
+					} else {
+						r.ok(rule, fn+"/index-read", "element read by value")
+					}
+				case *ast.SliceExpr:
+					r.bad(rule, key, "vm.result is sliced: the list may be aliased", c.pos(sel.Pos()))
 				default:
 					r.bad(rule, key, fmt.Sprintf("unexpected use of vm.result (%T)", par), c.pos(sel.Pos()))
 				}
